@@ -1,10 +1,11 @@
 ----------------------------- MODULE Emit_Tune -----------------------------
-(* Writes the request universe of Tune.tla as JSON (IOEnv.OUT): {"all": [...], "structural": [...], "pair": [...], "triples": [[...], ...], "catalogue": {"owners": {usr, grp, prj: [ids]}, "rows": [...]}} *)
+(* Writes the request universe of Tune.tla as JSON (IOEnv.OUT): {"all": [...], "structural": [...], "pair": [...], "triples": [[...], ...], "fieldpairs" / "allocseqs" / "extrapairs": [[a, b], ...], "catalogue": {"owners": {usr, grp, prj: [ids]}, "rows": [...], "variants": [...]}} *)
 EXTENDS Tune, Json, IOUtils, SequencesExt
 VARIABLE x
 Univ == [all |-> SetToSeq(AllOps), structural |-> SetToSeq(StructuralOps), pair |-> SetToSeq(PairOps),
          triples |-> SetToSeq({SetToSeq(t) : t \in TripleSeeds}),
-         catalogue |-> [owners |-> CatalogueOwners, rows |-> SetToSeq(CatalogueRows)]]
+         fieldpairs |-> SetToSeq(FieldPairs), allocseqs |-> SetToSeq(AllocSeqs), extrapairs |-> SetToSeq(ExtraPairs),
+         catalogue |-> [owners |-> CatalogueOwners, rows |-> SetToSeq(CatalogueRows), variants |-> SetToSeq(CatVariants)]]
 ASSUME JsonSerialize(IOEnv.OUT, Univ)
 Init == x = 0
 Next == x' = x /\ UNCHANGED x
